@@ -47,6 +47,28 @@ class SimTime:
         return getattr(self._real, name)
 
 
+_BUILTIN_HASH = hash
+
+
+def sim_hash(x):
+    """Stand-in for the builtin hash() inside coba's modules: str/bytes hashing is randomised per process in
+    production (PYTHONHASHSEED), so inside a simulation it is salted with the simulated pid.  Numbers hash as usual."""
+    s = cur_sim()
+    if s is None or s.closed or s.current is None:
+        return _BUILTIN_HASH(x)
+    return _salted(x, s.current.pid)
+
+
+def _salted(x, pid):
+    if isinstance(x, (str, bytes)):
+        return _BUILTIN_HASH((pid, "salt", x))
+    if isinstance(x, tuple):
+        return _BUILTIN_HASH(tuple(_salted(e, pid) for e in x))
+    if isinstance(x, frozenset):
+        return _BUILTIN_HASH(frozenset(_salted(e, pid) for e in x))
+    return _BUILTIN_HASH(x)
+
+
 class GlobalsVirt:
     """Per-pid snapshots of coba's process-global state."""
 
@@ -162,6 +184,10 @@ def install():
         OM.time = SimTime(_time)
     except Exception:       # pragma: no cover
         pass
+    # explicit hash() calls inside coba see a per-simulated-process salt (dict/set internals are unaffected)
+    for name, mod in list(sys.modules.items()):
+        if (name == "coba" or name.startswith("coba.")) and ".tests" not in name and mod is not None and "hash" not in vars(mod):
+            mod.hash = sim_hash
     _installed = True
 
 
